@@ -145,7 +145,7 @@ async fn run(p: &Params, ch: &mut Chooser, stats: &Mutex<Stats>, verbose: bool) 
     let w = build_world(max, fallthrough).await.unwrap_or_else(|e| vcore::machinery_error(&e));
     let cluster = w.cluster.clone();
     cluster.hold(move |a| is_test_action(a, page));
-    let call_cfg = CallCfg { api, id: CASE_ID, idempotent, consistency: None, profile: None };
+    let call_cfg = CallCfg { api, id: CASE_ID, idempotent, consistency: None, profile: None, retry_policy: None };
     let (s2, st2) = (w.session.clone(), w.stmts.clone());
     let mut handle = tokio::spawn(async move { call(&s2, &st2, &call_cfg).await });
 
